@@ -58,7 +58,7 @@ ERR_NAMES = ["ENOSPC", "EIO", "EACCES"]
 MAX_EVENTS = 400  # enumeration guard per model (never reached by the generator's sizes; counted if hit)
 
 # Named regions of recorded/suspected findings.  Names put into EXCLUDE are not generated (redirected + counted).
-EXCLUDE: set = set()
+EXCLUDE: set = set(filter(None, os.environ.get("VERIF_C20_EXCLUDE", "").split(",")))
 
 
 # ============================================================================================== element types
@@ -244,8 +244,9 @@ def build(spec, root):
             pass
         elif dt_name == "STRING":
             raw = string_items(init)
-            tensor = ir.StringTensor(np.array(raw, dtype=object).reshape(shape) if shape else np.array(raw[0], dtype=object),
-                                     shape=ir.Shape(shape), name=vname)
+            holder = np.empty(len(raw), dtype=object)
+            holder[:] = raw
+            tensor = ir.StringTensor(holder.reshape(shape), shape=ir.Shape(shape), name=vname)
         else:
             arr, raw, packed = make_data(init)
             if kind == "np":
@@ -257,9 +258,9 @@ def build(spec, root):
                 tensor = ir.serde.TensorProtoTensor(tp)
             elif kind == "proto_typed":
                 tp = onnx.TensorProto(name=vname, data_type=int(irdt), dims=shape)
-                getattr(tp, TYPED_FIELD[dt_name]).extend(int(x) if TYPED_FIELD[dt_name] != "float_data" and
-                                                          TYPED_FIELD[dt_name] != "double_data" else float(x)
-                                                          for x in arr.reshape(-1))
+                field = TYPED_FIELD[dt_name]
+                conv = float if field in ("float_data", "double_data") else int
+                getattr(tp, field).extend(conv(x) for x in arr.reshape(-1))
                 tensor = ir.serde.TensorProtoTensor(tp)
             elif kind == "lazy":
                 tensor = ir.LazyTensor((lambda a=arr, n=vname: ir.Tensor(a, name=n)), dtype=irdt, shape=ir.Shape(shape),
@@ -274,9 +275,6 @@ def build(spec, root):
                 with open(path, mode) as f:
                     f.seek(off)
                     f.write(raw)
-                    if len(raw) == 0 and off > 0:
-                        f.seek(off - 1)
-                        f.write(b"\0")
                 ext_offsets[path] = off + len(raw)
                 tensor = ir.ExternalTensor(os.path.basename(path), off, len(raw), irdt, shape=ir.Shape(shape), name=vname,
                                            base_dir=os.path.dirname(path))
@@ -396,9 +394,15 @@ def fingerprint(model, ident):
     def meta(o):
         return sorted((o.metadata_props or {}).items())
 
+    init_ids = set()
+    if not ident:  # loading types initializer Values from their tensors: not a difference
+        for _, g in walk_graphs(model.graph):
+            init_ids.update(id(v) for v in g.initializers.values())
+
     def vi(v, drop_type=False):
         if v is None:
             return None
+        drop_type = drop_type or id(v) in init_ids
         r = [v.name, None if drop_type or v.type is None else str(v.type),
              None if drop_type or v.shape is None else str(v.shape), meta(v)]
         if ident:
@@ -425,15 +429,16 @@ def fingerprint(model, ident):
             return [a.name, a.type.name]
         return [a.name, a.type.name, repr(a.value)]
 
-    out = [["model", model.ir_version, model.producer_name, model.producer_version, model.domain, model.model_version,
-            model.doc_string, meta(model), sorted(model.opset_imports.items()), sorted(str(k) for k in model.functions)]]
+    nz = lambda x: x or None  # noqa: E731  ("" and None are the same proto)
+    out = [["model", model.ir_version, nz(model.producer_name), nz(model.producer_version), nz(model.domain),
+            nz(model.model_version), nz(model.doc_string), meta(model), sorted(model.opset_imports.items()), sorted(str(k) for k in model.functions)]]
     for path, g in walk_graphs(model.graph):
-        out.append(["graph", path, g.name, g.doc_string, meta(g), [vi(v) for v in g.inputs], [vi(v) for v in g.outputs],
+        out.append(["graph", path, nz(g.name), nz(g.doc_string), meta(g), [vi(v) for v in g.inputs], [vi(v) for v in g.outputs],
                     [[k, vi(v, drop_type=not ident), ti(v.const_value)] for k, v in g.initializers.items()]])
         for node in g:
-            r = ["node", path, node.op_type, node.domain, node.overload, node.name, [vi(v) for v in node.inputs],
+            r = ["node", path, node.op_type, node.domain, nz(node.overload), nz(node.name), [vi(v) for v in node.inputs],
                  [vi(v) for v in node.outputs], [attr_fp(node.attributes[k]) for k in sorted(node.attributes)], meta(node),
-                 node.doc_string]
+                 nz(node.doc_string)]
             if ident:
                 r.append(id(node))
             out.append(r)
@@ -523,7 +528,7 @@ def read_tensor_bytes(t):
     import onnx_ir as ir
 
     if t.dtype == ir.DataType.STRING:
-        return [bytes(x) for x in np.asarray(t.string_data() if hasattr(t, "string_data") else t.numpy()).reshape(-1)]
+        return [bytes(x) for x in t.string_data()]
     return bytes(t.tobytes())
 
 
@@ -604,10 +609,7 @@ def run_once(spec, k, mode, errno_name, root):
 
     # ---- ALWAYS: the in-memory model is unchanged
     fp_after = fingerprint(model, ident=True)
-    d = first_diff(fp_before, fp_after)
-    if d:
-        what = "const_value-replaced" if "[7]" in d and "graph" in str(fp_before[int(d.split("]")[0][1:])][0]) else "object-graph-changed"
-        bad(f"after:{what}", f"{'returned' if exc is None else 'raised ' + type(exc).__name__} k={k}: {d}")
+    fp_diff = first_diff(fp_before, fp_after)
     for r in env.inits:
         t, v, init = r["tensor"], r["value"], r["init"]
         tag = f"{init['name']}({init['kind']},{init['dtype']},{nbytes_of(init)}B)"
@@ -637,6 +639,8 @@ def run_once(spec, k, mode, errno_name, root):
             continue
         if got != r["raw"]:
             bad("after:tensor-bytes-changed", f"{tag} k={k} exc={info['exc']}")
+    if fp_diff and not any(b == "after:const_value-replaced" for b, _ in verdicts):
+        bad("after:object-graph-changed", f"{'returned' if exc is None else 'raised ' + type(exc).__name__} k={k}: {fp_diff}")
     if bytes_before is not None:
         try:
             bytes_after = ir.serde.serialize_model(model).SerializeToString(deterministic=True)
@@ -775,7 +779,13 @@ def _has_uninit_sub_only(case):
         i["kind"] == "uninit" and i["where"] == "main" for i in ii)
 
 
+def _has_2bit_external(case):
+    return any(i["dtype"] in ("INT2", "UINT2") and (i["kind"] == "ext" or (i["kind"] != "uninit" and nbytes_of(i) > THRESH))
+               for i in case["spec"]["inits"])
+
+
 REGIONS = {
+    "two_bit_dtype_stored_externally": _has_2bit_external,
     "ext_tensor_in_destination_data_file": _has_ext_dest,
     "string_initializer_above_threshold": _has_big_string,
     "uninitialized_only_in_subgraph": _has_uninit_sub_only,
@@ -788,6 +798,9 @@ def apply_excludes(spec, col=None):
         return spec
     spec = copy.deepcopy(spec)
     for i in spec["inits"]:
+        if "two_bit_dtype_stored_externally" in EXCLUDE and _has_2bit_external({"spec": {"inits": [i]}}):
+            i["dtype"] = {"INT2": "INT4", "UINT2": "UINT4"}[i["dtype"]]
+            col and col.exclude("two_bit_dtype_stored_externally")
         if "ext_tensor_in_destination_data_file" in EXCLUDE and i["kind"] == "ext" and i["ext"]["file"] == "dest":
             i["ext"]["file"] = "other"
             col and col.exclude("ext_tensor_in_destination_data_file")
@@ -975,7 +988,7 @@ def enumerate_case(spec, on_run):
 
 def run_shard(spec_):
     col = Collector()
-    col.extra.update({"models": 0, "fault_points_total": 0, "max_fault_points": 0, "leaked_handles": 0,
+    col.extra.update({"models": 0, "fault_points_total": 0, "leaked_handles": 0,
                       "runs_returned_despite_fault": 0, "models_truncated_enumeration": 0})
 
     def body(spec):
@@ -992,7 +1005,6 @@ def run_shard(spec_):
             if k == 0:
                 classes += mcls + ["run:fault-free", "outcome:" + ("returned" if info["returned"] else "raised:" + info["exc"])]
                 col.extra["fault_points_total"] += n
-                col.extra["max_fault_points"] = 0  # summed across shards would be meaningless; see fault_points hist
                 classes.append("fault_points:" + ("0" if n == 0 else "1-9" if n < 10 else "10-29" if n < 30 else
                                                   "30-99" if n < 100 else "100+"))
                 if info.get("truncated"):
@@ -1020,7 +1032,7 @@ def run_shard(spec_):
         enumerate_case(spec, on_run)
 
     drive(specs(), body, spec_["n"], spec_["seed"])
-    del col.extra["max_fault_points"]
+    col.extra["fault_index_exhaustive_per_model"] = col.extra["models_truncated_enumeration"] == 0
     return col.result()
 
 
